@@ -124,7 +124,7 @@ func registerStress(c *mon.Ctx, ps *procState) {
 	// (the per-case PRNG is derived from the family name); counters use the base name
 	suffix := fmt.Sprintf(".p%d", runtime.GOMAXPROCS(0))
 	if want("fifo") {
-		c.Family("fifo"+suffix, scaled(c.N(120, 3000)), func(k *mon.Case) { runStress(k, ps, "fifo", false, big) })
+		c.Family("fifo"+suffix, scaled(c.N(100, 1500)), func(k *mon.Case) { runStress(k, ps, "fifo", false, big) })
 		c.Require("fifo.cases", 20)
 		c.Require("fifo.msgs.on-wire", 1000)
 		c.Require("fifo.done.exactly-once", 1000)
@@ -132,14 +132,14 @@ func registerStress(c *mon.Ctx, ps *procState) {
 		c.Require("fifo.drained-completely", 3)
 	}
 	if want("v2") {
-		c.Family("v2"+suffix, scaled(c.N(60, 1200)), func(k *mon.Case) { runStress(k, ps, "v2", k.Rand.Chance(1, 3), big) })
+		c.Family("v2"+suffix, scaled(c.N(48, 600)), func(k *mon.Case) { runStress(k, ps, "v2", k.Rand.Chance(1, 3), big) })
 		c.Require("v2.cases", 10)
 		c.Require("v2.msgs.on-wire", 200)
 		c.Require("v2.transport.v2", 5)
 		c.Require("v2.transport.v2-local-with-v1-remote", 2)
 	}
 	if want("early") {
-		c.Family("early"+suffix, scaled(c.N(120, 3000)), func(k *mon.Case) { runStress(k, ps, "early", true, big) })
+		c.Family("early"+suffix, scaled(c.N(100, 1500)), func(k *mon.Case) { runStress(k, ps, "early", true, big) })
 		c.Require("early.cases", 20)
 		c.Require("early.done.exactly-once", 500)
 	}
@@ -162,9 +162,9 @@ func runStress(k *mon.Case, ps *procState, fam string, early, big bool) {
 		}
 		// 0..4094 (4095 is the known C19 finding; not this property's business); mostly short, because
 		// the peer reads garbage one byte per Read call and its 30 s negotiation timeout is wall clock
-		o.Garbage = r.Intn(4095)
-		if r.Chance(1, 3) {
-			o.Garbage = r.Intn(40)
+		o.Garbage = r.Intn(64)
+		if r.Chance(1, 4) {
+			o.Garbage = r.Intn(4095)
 		}
 	}
 	o.Transport = tpNames[transport]
@@ -440,6 +440,9 @@ func runStress(k *mon.Case, ps *procState, fam string, early, big bool) {
 			}
 			v := wire.NewMsgVersion(wire.NewNetAddressIPPort(net.IPv4(10, 0, 0, 2), 8333, 0), wire.NewNetAddressIPPort(net.IPv4(10, 0, 0, 1), 8333, 0), v2nonce, 1234)
 			v.Services = wire.SFNodeNetwork | wire.SFNodeWitness | wire.SFNodeP2PV2
+			// from here on the ciphers are set up: whatever happens to the sends, everything the peer
+			// writes must be read (from the capture), or the wire view of this case would be empty
+			defer v2r.readLoop()
 			for _, m := range []wire.Message{v, wire.NewMsgVerAck(), wire.NewMsgPing(warmupID)} {
 				if err := v2r.send(m); err != nil {
 					hsErr = err
@@ -448,7 +451,6 @@ func runStress(k *mon.Case, ps *procState, fam string, early, big bool) {
 				}
 			}
 			close(hsWritten)
-			v2r.readLoop()
 		}()
 	} else {
 		close(v2done)
@@ -611,16 +613,21 @@ func runStress(k *mon.Case, ps *procState, fam string, early, big bool) {
 	if r.Bool() {
 		sleepUs(pickDelay(r, 300))
 	}
+	// Did the peer hang up (or start to: the disconnect flag is raised before the quit channel is
+	// closed) before anything was injected?
 	spontaneous := false
+	hungUp := !p.Connected()
 	select {
 	case <-p.Done():
-		// the remote is well-behaved and nothing was injected yet
+		hungUp = true
+	default:
+	}
+	if hungUp {
 		select {
-		case <-hsFailCh: // ... unless the remote's own transport handshake failed
+		case <-hsFailCh: // the remote's own transport handshake failed (disconnect during it)
 		default:
 			spontaneous = true
 		}
-	default:
 	}
 	markCause()
 	switch cause {
@@ -748,6 +755,12 @@ func runStress(k *mon.Case, ps *procState, fam string, early, big bool) {
 		tdisc = fs
 	}
 	msgs, partial, derr := peerOutput()
+	// without a completed transport handshake the remote cannot decrypt what the peer wrote: checks
+	// that rely on a message being absent from the wire are skipped for such a case
+	wireView := v2r == nil || v2r.started()
+	if !wireView {
+		k.Count(fam+".no-wire-view(remote v2 handshake did not complete)", 1)
+	}
 	ctx := fmt.Sprintf("%s %s start=%s cause=%s senders=%d trigger=%d; peer goroutines still parked at the end of this case: %s", fam, dirName(o.Inbound), o.Start, o.Cause, o.Senders, o.Trigger, leakSummary(gs))
 	if v2r != nil {
 		ctx += fmt.Sprintf("; v2 remote reader ended with: %s after %d messages; hung-up-before-cause=%v", v2r.endClass(), len(msgs), spontaneous)
@@ -907,7 +920,7 @@ func runStress(k *mon.Case, ps *procState, fam string, early, big bool) {
 				if !sent {
 					dropped++
 				}
-				if rc := sr.receipt.Load(); rc != 0 && rc < tdisc && !sent && sr.call.Load() > assocRet {
+				if rc := sr.receipt.Load(); rc != 0 && rc < tdisc && !sent && wireView && sr.call.Load() > assocRet {
 					k.Failf("fifo:signalled-but-not-sent", "sender %d message #%d: completion signalled at stamp %d, before anything disturbed the connection (stamp %d), but the message is not on the wire; %s", s.idx, j, rc, tdisc, ctx)
 				}
 			case n == 0 && rt != 0 && rt < tdisc:
@@ -929,7 +942,7 @@ func runStress(k *mon.Case, ps *procState, fam string, early, big bool) {
 		} else {
 			for _, s := range senders {
 				for j, sr := range s.recs {
-					if _, sent := onWire[sr.id]; !sent && sr.done != nil && !spontaneous {
+					if _, sent := onWire[sr.id]; !sent && sr.done != nil && !spontaneous && wireView {
 						k.Failf("fifo:lost-on-live-connection", "sender %d message #%d was signalled complete on an undisturbed connection but is not on the wire; %s", s.idx, j, ctx)
 					}
 				}
@@ -961,7 +974,8 @@ func runStress(k *mon.Case, ps *procState, fam string, early, big bool) {
 	k.Count(fam+".inv.on-wire", int64(len(invSeen)))
 	k.Count(fam+".injected-delays", hk.delays.Load())
 	if !warm {
-		inconclusive(k, "warmup-pong-not-seen")
+		// not a verdict: the senders simply started while the handshake was still in flight
+		k.Count(fam+".warmup-wait-budget-expired", 1)
 	}
 	_ = missing
 	// event-order fingerprint: which sender's message went out in which order, and how it ended
